@@ -103,7 +103,7 @@ def run(ctx):
     SC.bool_operand_lane(ctx, ctx.rng("boolops"), select, findings.sqlite_semantic_triggers, extra_case=case_extra, profile=clean)
     SC.in_list_shape_lane(ctx, ctx.rng("inshape"), select, findings.sqlite_semantic_triggers, extra_case=case_extra, profile=clean)
     SC.nullable_key_lane(ctx, ctx.rng("nullkey"), select, findings.sqlite_semantic_triggers, extra_case=case_extra,
-                         kinds=NULLKEY_KINDS)
+                         kinds=NULLKEY_KINDS, null_items=True)
     SC.int_vs_decimal_lane(ctx, ctx.rng("intdec"), select, findings.sqlite_semantic_triggers, extra_case=case_extra, profile=clean)
     SC.math_of_literal_lane(ctx, ctx.rng("mathlit"), select, findings.sqlite_semantic_triggers, extra_case=case_extra, profile=clean)
     SC.neutral_boolean_lane(ctx, ctx.rng("neutral"), select, findings.sqlite_semantic_triggers, extra_case=case_extra, profile=clean)
